@@ -36,14 +36,14 @@ pub fn start_watchdog(out_path: String, limit_s: u64) {
         }
     });
 }
-fn enter(input: &[u8]) {
+pub fn enter(input: &[u8]) {
     if let Ok(mut g) = CURRENT.lock() {
         g.clear();
         g.extend_from_slice(input);
     }
     CALL_SEQ.fetch_add(1, Ordering::SeqCst); // odd: inside a call
 }
-fn leave() {
+pub fn leave() {
     CALL_SEQ.fetch_add(1, Ordering::SeqCst);
 }
 
@@ -138,7 +138,21 @@ fn payload_with_number(r: &mut StdRng, num: u16, len: usize, style: u8) -> Vec<u
 pub fn hostile_frames(r: &mut StdRng, num: u16, n: usize) -> Vec<(Vec<u8>, &'static str)> {
     let mut out = vec![];
     for k in 0..n {
-        match k % 6 {
+        match k % 7 {
+            6 => {
+                // a valid generated frame with one or two 8-bit windows cleared to zero (a NUL inside a text field, a zero count, ...)
+                if let Some(mut f) = lib_frame(r, num) {
+                    let n = f.len();
+                    for _ in 0..r.gen_range(1..=2) {
+                        let start = r.gen_range(36..(n - 3) * 8 - 8);
+                        for b in start..start + 8 {
+                            f[b / 8] &= !(0x80 >> (b % 8));
+                        }
+                    }
+                    refresh_crc(&mut f);
+                    out.push((f, "zero-window"));
+                }
+            }
             0 | 1 => {
                 let len = *pick(r, &[2usize, 3, 5, 8, 13, 21, 40, 80, 160, 300, 600, 1023]);
                 let len = if r.gen() { len } else { r.gen_range(2..1024) };
@@ -182,7 +196,6 @@ pub fn rec_decode(a: &Args, out: &mut Out) {
     let per_type = a.num("per_type", 60) as usize;
     let hook_every = a.num("hook_every", 5) as usize;
     let nums = supported_numbers();
-    start_watchdog(a.str("out", "-"), a.num("hang_s", 10));
     let mut k = 0usize;
     for &num in &nums {
         for (f, tag) in hostile_frames(&mut r, num, per_type) {
@@ -230,7 +243,6 @@ pub fn rec_decode(a: &Args, out: &mut Out) {
 /// C14: every message number x payload shapes, and the two short payloads
 pub fn rec_classify(a: &Args, out: &mut Out) {
     let mut r = rng(a.seed(), 14);
-    start_watchdog(a.str("out", "-"), a.num("hang_s", 10));
     for n in 0..4096u16 {
         for (len, style) in [(2usize, 0u8), (5, 0), (40, 3), (40, 0), (1023, 4), (1023, 0), (300, 1)] {
             let p = payload_with_number(&mut r, n, len, style);
